@@ -142,6 +142,14 @@ def run(pid: str, tier: str, families=None, extra_requests=None, worker=None, va
         reqs = reqs + extra_requests
     tasks = ksweep.build_tasks(reqs, D, N, families, dim_mode, max_paths, tb,
                                symbolic_dims=(pid in ("C01", "C02", "C03")))
+    if tier != "quick" and pid in ("C01", "C02", "C03", "C05"):
+        # deeper bound on the input axis for small kernels: 3 stored entries per compressed level
+        small = [r for r in reqs if len(r.formats) <= 3 and all(len(f.replace("0", "").replace("1", "").replace("2", "")) <= 2
+                                                                 for _, f in r.formats)][:120]
+        deep = ksweep.build_tasks(small, D, 3, families, dim_mode, max_paths, tb)
+        for t in deep:
+            t["deep"] = True
+        tasks = tasks + deep
     if variants:
         tasks = [{**t, **v} for t in tasks for v in variants]
     if task_filter:
@@ -255,6 +263,7 @@ def run(pid: str, tier: str, families=None, extra_requests=None, worker=None, va
         "budget_exceeded": budget, "inconclusive_tasks_solver_timeout": inconclusive, "rotating_requests": sorted(rotating),
         "rotating_requests_cut_by_budget": rotating_cut,
         "symbolic_dimension_tasks": sum(1 for t in tasks if t.get("symbolic_dimension")),
+        "tasks_with_3_stored_entries_per_level": sum(1 for t in tasks if t.get("deep")),
         "bounds": {"dense_dimension_max": D, "stored_entries_per_compressed_level": N,
                    "sparse_only_dimensions": "additionally free in [0, 2^31-1] (one extra task per request that has one)",
                    "dimension_vectors": dim_mode, "initial_capacity": "symbolic in [1, 2^20]",
